@@ -596,6 +596,33 @@ def impl_parse(text):
 	return ('ok', canonical_items(items), items)
 
 
+def applied_attributes_problem(text):
+	"""P (attribute values are exactly those written): parse the text afresh, let AstPostProcessor.apply_attributes move the attribute
+	values onto the member types, and compare the `sizeref` of every integer-typed member / alias with what is written above THAT member."""
+	from catparser.AstPostProcessor import AstPostProcessor
+	statements = [item for item in parse_items(text) if type(item).__name__ in ('Alias', 'Enum', 'Struct')]
+	try:
+		AstPostProcessor(statements).apply_attributes()
+	except Exception:  # pylint: disable=broad-except
+		return None   # documents whose attributes cannot be applied are the subject of C05 / C06
+	for statement in statements:
+		kind = type(statement).__name__
+		if kind == 'Alias' and type(statement.linked_type).__name__ == 'FixedSizeInteger' and statement.linked_type.sizeref:
+			return f'alias {statement.name}: its integer type carries sizeref {statement.linked_type.sizeref} although an alias has no attributes'
+		if kind != 'Struct':
+			continue
+		for field in statement.fields:
+			if type(getattr(field, 'field_type', None)).__name__ != 'FixedSizeInteger':
+				continue
+			written = [attribute.values for attribute in (field.attributes or []) if attribute.name == 'sizeref']
+			actual = field.field_type.sizeref
+			if not written and actual:
+				return f'{statement.name}.{field.name}: no @sizeref is written above this member, yet its type carries sizeref {tuple(actual)}'
+			if written and (not actual or actual.property_name != written[-1][0]):
+				return f'{statement.name}.{field.name}: @sizeref({written[-1]}) is written, the member type carries {actual and tuple(actual)}'
+	return None
+
+
 def repo_print(items):
 	"""Prints parsed statements back as CATS text with the repo's own __str__ methods.
 
@@ -1046,6 +1073,10 @@ def run(check, unrecognised):
 				problem = printback_problem(impl[2])
 		elif kind in ('random', 'respelt'):
 			problem = truth_problem(case['ds'], case['style'], case['text'], impl)
+			if problem is None:
+				leaked = applied_attributes_problem(case['text'])
+				if leaked:
+					problem = ('attribute-value-on-another-member', leaked)
 			if problem is None:
 				problem = printback_problem(impl[2])
 		if problem:
